@@ -134,4 +134,17 @@ example :
     plainOut (scanLines "  foo\n##! c\n\nbar\n".toList) = "foo\nbar\n".toList := by
   decide
 
+/-- **C05 (lookup).** A name is looked up in the include directory first: when a file of that name (with or without
+    `.ra`) is there, it is the one that is read, whatever the exclude directory holds under the same name; only a name
+    the include directory does not have is looked up in the exclude directory. -/
+theorem C05_include_directory_first (fs : Fs) (name c : Bytes)
+    (h : assocLookup (fileNameOf name) fs.inc = some c) : fs.find name = some c := by
+  simp [Fs.find, h]
+
+theorem C05_exclude_directory_second (fs : Fs) (name : Bytes)
+    (h : assocLookup (fileNameOf name) fs.inc = none) : fs.find name = assocLookup (fileNameOf name) fs.exc := by
+  simp [Fs.find, h]
+
+example : (Fs.find ⟨[(b!"twice.ra", b!"alpha\n")], [(b!"twice.ra", b!"gamma\n")]⟩ b!"twice") = some b!"alpha\n" := by decide
+
 end Crs.Props
